@@ -5,7 +5,9 @@
 //!   verif-harness record <module> <driver> <seed> <quick|thorough> <out.ndjson>
 //!   verif-harness rerun  <module> <in.ndjson> <out.ndjson>
 //!   verif-harness graph  <module> <graph.json> <seed> <quick|thorough>
+mod exact;
 mod graphrun;
+mod lfo;
 mod midi;
 mod util;
 
@@ -47,6 +49,7 @@ fn main() {
             let mut out = Out::create(&args[6]);
             let stats = match module {
                 "midi" => midi::record(driver, seed, thorough, &mut out),
+                "lfo" => lfo::record(driver, seed, thorough, &mut out),
                 _ => usage(),
             };
             let n = out.finish();
@@ -62,6 +65,7 @@ fn main() {
             let mut out = Out::create(&args[4]);
             match args[2].as_str() {
                 "midi" => midi::rerun(&lines, &mut out),
+                "lfo" => lfo::rerun(&lines, &mut out),
                 _ => usage(),
             }
             out.finish();
